@@ -41,6 +41,7 @@ def main():
     ap.add_argument("--tier", default="quick")
     ap.add_argument("--time", type=float, default=0)
     ap.add_argument("--seeded", action="store_true")
+    ap.add_argument("--ideas", action="store_true", help="candidate slips implemented by sub-agents (mutants/ideas/<id>/patch.diff), no demonstration")
     ap.add_argument("--benign", action="store_true", help="behaviour-preserving changes (benign/<id>/patch.diff): every check must stay quiet")
     ap.add_argument("--keep", action="store_true")
     ap.add_argument("--json")
@@ -53,6 +54,13 @@ def main():
             if os.path.exists(meta):
                 m = json.load(open(meta))
                 items.append({"id": name, "prop": m["property"], "patch": os.path.join(sd, name, "patch.diff"), "checks": m.get("checks", [m["property"]])})
+    elif a.ideas:
+        sd = os.path.join(VERIF, "mutants", "ideas")
+        for name in sorted(os.listdir(sd)):
+            meta = os.path.join(sd, name, "meta.json")
+            if os.path.exists(meta):
+                m = json.load(open(meta))
+                items.append({"id": name, "prop": m["property"], "patch": os.path.join(sd, name, "patch.diff"), "checks": m["checks"]})
     elif a.benign:
         sd = os.path.join(VERIF, "benign")
         for name in sorted(os.listdir(sd)):
